@@ -320,6 +320,9 @@ func NewService(name string, state ServerState, mem *Mem, j *Journal) *Service {
 			return custom.SignDeviceCertificate(s.DevCAKey, s.DevCAChain)(info)
 		},
 		DeviceInfo: func(ctx context.Context, info *custom.DeviceMfgInfo, _ []*x509.Certificate) (string, protocol.PublicKey, error) {
+			if info == nil {
+				return "", protocol.PublicKey{}, fmt.Errorf("no device manufacturing info")
+			}
 			bits := s.MfgBits
 			key, chain, err := state.ManufacturerKey(ctx, info.KeyType, bits)
 			if err != nil {
